@@ -28,11 +28,13 @@ def tryConvert (v : Val) (t : Ty) : Except Diag Val :=
 def natIndex? (q : Rat) : Option Nat :=
   if q.den = 1 ∧ q.num ≥ 0 then some q.num.toNat else none
 
-/-- `hcl.Index(collection, key)` -/
-def index (coll key : Val) : Out :=
+/-- `hcl.Index(collection, key)`.  `keepKeyMarks` selects the repaired behaviour in which indexing an object
+    carries the key's marks to the result, as list / tuple / map indexing does; the Go code does not
+    (`keepKeyMarks = false`; pinned by `TestIndex/marked_object_key`). -/
+def index (keepKeyMarks : Bool) (coll key : Val) : Out :=
   if coll.isNull then errOut "Attempt to index null value"
   else if key.isNull then errOut "Invalid index: null key"
-  else if key.typeOf == .dyn ∨ coll.typeOf == .dyn then (Val.dynVal.withFl coll.fl.unmark |>.withFl ⟨coll.fl.m, false⟩, [])
+  else if key.typeOf == .dyn ∨ coll.typeOf == .dyn then (Val.dynVal.withFl coll.fl, [])
   else
     let cm : Fl := coll.fl
     match coll.typeOf with
@@ -78,16 +80,18 @@ def index (coll key : Val) : Out :=
       | .error d => if d.isUnsupported then (Val.dynVal, [d]) else errOut "Invalid index: key conversion"
       | .ok key =>
         match key with
-        | .str _ s =>
+        | .str kf s =>
+          -- `key, _ = key.Unmark()`: the key's marks are dropped in the Go code
+          let rm : Fl := if keepKeyMarks then cm.join kf else cm
           (match lookupKey s fs with
            | none => errOut "Invalid index: no such attribute"
            | some aty =>
              match coll with
              | .object _ kvs =>
                (match lookupKey s kvs with
-                | some x => (x.withFl cm, [])       -- the key's marks are dropped here (`key, _ = key.Unmark()`)
+                | some x => (x.withFl rm, [])
                 | none => errOut "Invalid index: no such attribute")
-             | _ => (Val.unk cm aty, []))
+             | _ => (Val.unk rm aty, []))
         | _ => (Val.dynVal.withFl cm, [])
     | _ => errOut "Invalid index: not indexable"
 
